@@ -36,7 +36,7 @@ func c07RegisterRules(r *Report, floors bool) {
 	r.Rule(c07N1, "every explicit panic / log.Fatal* / os.Exit / runtime.Goexit reachable from an entry point belongs to the documented programmer-misuse set (NewParser, aescbcaead Seal, ttlcache.Set, errors.Build)", f(6))
 	r.Rule(c07N2, "every unchecked type assertion x.(T) in scope is discharged: sync.Pool of one type, exact reflect.Type equality on a decode hook's from-type, Kind-guard with string-only callers, Implements-guard, or a third-party result whose documented dynamic types all satisfy T", f(10))
 	r.Rule(c07N3, "a result of strings/bytes.Index* used as a slice bound or index is known to be >= 0 (dominating test against -1 / <0, or a dominating Has*/Contains fact that implies a match); no floor of its own: the anchors are exported std-lib functions and code that stops using Index* (strings.Cut, ...) has nothing to check — the joint floor of N3+N4 guards against vacuity", 0)
-	r.Rule(c07N4, "every index/slice with constant (or len-constant) bounds of a slice or string has a length fact that covers it on every path (local guards, switch-case value sets, API models, call-site minima for private functions)", f(24))
+	r.Rule(c07N4, "every index/slice with constant (or len-constant) bounds of a slice or string has a length fact that covers it on every path (local guards, switch-case value sets, boolean / (value, ok) helper summaries, API models, call-site minima for private functions); an offset len(x)-v with a non-constant size v (x[len(x)-v:], x[:len(x)-v]) is provably >= 0 — a remainder test on it does not bound its sign", f(24))
 	r.Rule(c07N5, "every allocation size in scope is provably non-negative: the length of make([]T, n) and the count of bytes/strings/slices.Repeat", f(12))
 	r.Rule(c07N5d, "a non-constant integer divisor is provably >= 1", f(1))
 	r.Rule(c07N5iv, "the iv handed to cipher.NewCBCEncrypter/NewCBCDecrypter has a dominating len(iv) == block-size test (in the function or in every caller chain; constructor reached statically or through a function value)", f(2))
@@ -50,6 +50,7 @@ func checkC07(c *Ctx) {
 		"N3: strings/bytes.Index* results used as slice bounds/indices are tested against -1 (or a dominating Has*/Contains fact implies a match). N4: constant and len-minus-constant indices/slice bounds are covered by a length lower bound from the lenbound engine (edge facts on the CFG incl. switch-case unions, s==\"const\", HasPrefix, err==nil summaries of module callees, API models, package-level literals, call-site minima for private functions). " +
 		"N5: make lengths and Repeat counts non-negative, non-constant divisors >= 1, CBC iv length tested. N6: the five-year bound of SpecSchedule.Next is on every cycle that leaves a field-search loop and every search loop advances t by a positive constant. " +
 		"Calls through function values (dispatch tables, func-typed fields, callbacks, method values) and module-declared interface seams are followed in both directions: their targets are in scope, and the call sites bound the targets' parameters (a bound tied to the dispatch key of a multi-target call is never claimed exact). N6 is decided over Next AND the module functions it calls: search loops may live in helpers; a give-up test is recognised in the exact form t.Year() > start+k, through a limit kept in a local/struct/AddDate form, or — form not evaluated — as a returning test inside the driving cycle that compares the time reached with a value fixed before the search; wrap-around tests are told apart because they only look at the loop-carried time. " +
+		"Guards may sit in module helpers: a boolean helper on x / len(x) / an int (validLen(len(x))) or the ok flag of a (value, ok) helper is summarised over the helper's returns; a helper whose conditions the engine reads completely hides nothing, so a site behind it stays decidable. x%m == r moves a lower bound to the next number with that remainder; on a difference len(x)-v it is never taken as a sign test. Sizes kept in unexported fields written only by constructors with constants (tagSize) have a known finite range. " +
 		"A site the engine cannot classify (operand of unknown origin, a dominating condition it cannot interpret, variable indices) is counted in the evidence (unclassified_*) and never reported. " +
 		"NOT decided: variable-index bounds (ParseISO8601Duration's scanner, readHeader, processSegments), reflection panics (reflect.Value.Elem/Interface on invalid values), nil dereferences, panics inside third-party code (jwx, mapstructure, x509, cast, resource.ParseQuantity), panicking preconditions of AEAD/CBC primitives other than the iv length (C03 decides those by scenarios), recursion depth of config.Normalize / resolveAliasesInType, termination of loops fed by a reader that returns (0, nil) forever, integer overflow in length arithmetic, and whether Next's result is correct (C04)."
 	r.Assumptions = append(r.Assumptions,
@@ -59,6 +60,7 @@ func checkC07(c *Ctx) {
 		"x509.ParsePKCS8PrivateKey returns only *rsa.PrivateKey, *ecdsa.PrivateKey, ed25519.PrivateKey or *ecdh.PrivateKey; x509.ParsePKIXPublicKey only *rsa.PublicKey, *dsa.PublicKey, *ecdsa.PublicKey, ed25519.PublicKey or *ecdh.PublicKey (documented)",
 		"strings/bytes.Index* return -1 exactly when there is no match; strings.Split with a non-empty separator returns at least one element; strings.HasPrefix(s,p) implies len(s) >= len(p)",
 		"length arithmetic does not overflow int",
+		"an unexported field of an unexported struct type whose every store (module-wide) goes through a freshly allocated struct is immutable after construction; if all those stores are integer constants the field ranges over them (and 0)",
 		"mapstructure calls a decode hook with data whose dynamic type is the from-type it passes",
 		"a value stored once into a package-level variable by the package initialiser and never stored to or address-taken elsewhere keeps that value")
 	c07RegisterRules(r, true)
